@@ -101,7 +101,7 @@ def merge(a, b):
             a[k] = a.get(k, 0) + v
 
 
-def main(tier, seed, prop="C04", worker_fn=None, rule=None, assumptions=None):
+def main(tier, seed, prop="C04", worker_fn=None, rule=None, assumptions=None, matcher_fn=None):
     t0 = time.time()
     lean_info, lean_problems = core.lean_stage(prop)
     n = 320 if tier == "quick" else 6000
@@ -123,4 +123,4 @@ def main(tier, seed, prop="C04", worker_fn=None, rule=None, assumptions=None):
     return core.finish(prop, tier, seed, lean_info, lean_problems, coverage, failures, t0,
                        assumptions=assumptions or ["pandas DataFrame.replace / numpy.select semantics are abstracted to dict lookup by Python equality / first match",
                                     "bool cells and numpy.nan stored in values_orders are outside the modelled universe"],
-                       finding_matcher=matcher)
+                       finding_matcher=matcher_fn or matcher)
